@@ -328,6 +328,10 @@ def check(rep, prog, fn):
                     bad = (which[0], 'the vertex is queued for discarding (line %d) when its live degree is %d: a vertex with two live neighbours is dropped '
                            'without being emitted, so a cycle through it survives in G - FVS' % (which[0].line, newdeg))
                     break
+                if dec and newdeg == 0:
+                    # the decrement took the degree from 1 to 0: the vertex was queued when it reached 1 (or by the initial scan), queueing it
+                    # again is optional
+                    continue
                 if newdeg <= 1 and updated and not which:
                     bad = (first_push, 'a vertex whose live degree has become %d is not queued for discarding: it stays in the heap and is emitted '
                            'although it lies on no cycle (a forest no longer yields the empty set)' % newdeg)
